@@ -2570,22 +2570,25 @@ class Parameters:
         restore = {k: values[k] for k, v in kwargs.items() if k in values}
 
         try:
-            for (k, v) in kwargs.items():
-                if k not in self_:
-                    raise ValueError(f"{k!r} is not a parameter of {self_.cls.__name__}")
-                setattr(self_or_cls, k, v)
+            try:
+                for (k, v) in kwargs.items():
+                    if k not in self_:
+                        raise ValueError(f"{k!r} is not a parameter of {self_.cls.__name__}")
+                    setattr(self_or_cls, k, v)
+            finally:
+                # Restore the batching state on every exit and announce the
+                # changes applied so far, even if a later value was rejected
+                self_._BATCH_WATCH = BATCH_WATCH
+                if not BATCH_WATCH:
+                    self_._batch_call_watchers()
         finally:
-            # Restore the batching state on every exit and announce the
-            # changes applied so far, even if a later value was rejected
-            self_._BATCH_WATCH = BATCH_WATCH
-            if not BATCH_WATCH:
-                self_._batch_call_watchers()
-
-        for tp in trigger_params:
-            p = self_[tp]
-            p._mode = 'reset'
-            setattr(self_or_cls, tp, p._autotrigger_reset_value)
-            p._mode = 'set-reset'
+            # Event parameters must be reset (and made self-resetting
+            # again) even if a value was rejected or a watcher raised
+            for tp in trigger_params:
+                p = self_[tp]
+                p._mode = 'reset'
+                setattr(self_or_cls, tp, p._autotrigger_reset_value)
+                p._mode = 'set-reset'
         return restore
 
     # PARAM3_DEPRECATION
